@@ -608,6 +608,92 @@ func (g *gen) forgeryFromDisclosedKeys(w *world) {
 	}
 }
 
+
+// C04 / C17: payloads that do not fit the 16 bit length field of a TLV (extra key usage data, SMP
+// question) must be refused by the call; they must never go out with a wrapped length, after which
+// the peer reads the rest of the value as further TLVs (a disconnect, say)
+func (g *gen) oversizedPayloads(w *world) {
+	w.parties = map[string]*party{}
+	w.dead = false
+	version := 2 + g.r.Intn(2)
+	pol := 2
+	if version == 3 {
+		pol = 4
+	}
+	a := w.newParty(partyCfg{policies: pol, keyIdx: 0, errh: true})
+	b := w.newParty(partyCfg{policies: pol, keyIdx: 1, errh: true})
+	l := &link{w: w, a: a, b: b}
+	l.enqueue(a, []otr3.ValidMessage{w.query(a)})
+	l.settle(40)
+	if !a.c.IsEncrypted() || !b.c.IsEncrypted() || w.dead {
+		return
+	}
+	which := g.r.Intn(2)
+	if which == 0 {
+		data := make([]byte, 65532+g.r.Intn(40))
+		copy(data[(4+len(data))%65536-4:], []byte{0, 1, 0, 0}) // what follows the wrapped length: a disconnect TLV
+		_, ts, _ := w.extraKey(a, 1, data)
+		l.enqueue(a, ts)
+	} else {
+		q := bytes.Repeat([]byte("q"), 64400+g.r.Intn(1500))
+		ts, _ := w.smpStart(a, string(q), []byte("s"))
+		l.enqueue(a, ts)
+	}
+	l.settle(10)
+	if w.dead {
+		olog.viol("C13", "receive-panics:oversized-tlv", "a call panicked around an oversized TLV payload")
+		return
+	}
+	text := g.cleanText()
+	ts, _ := w.send(a, text)
+	got := false
+	for _, m := range ts {
+		p, back, _, _ := w.recv(b, m)
+		l.enqueue(b, back)
+		if bytes.Equal(p, text) {
+			got = true
+		}
+	}
+	olog.ok("C04")
+	olog.ok("C17")
+	if !got || !b.c.IsEncrypted() {
+		what := []string{"UseExtraSymmetricKey with usage data beyond the 16 bit TLV length", "StartAuthenticate with a question beyond the 16 bit TLV length"}[which]
+		olog.viol("C04", "text-lost-after-oversized-tlv", fmt.Sprintf("OTRv%d: after %s the next text is not delivered (peer encrypted: %v)", version, what, b.c.IsEncrypted()))
+		olog.viol("C17", "tlv-length-wraps", fmt.Sprintf("OTRv%d: %s goes out with a length field that does not match the value; the peer reads the rest as further TLVs", version, what))
+	}
+}
+
+
+// C09 across a key exchange inside an established session: MAC keys used (or already waiting to be
+// revealed) in the session that ends are revealed in the first data message of the new one
+func (g *gen) reAkeDisclosure(w *world) {
+	version := 2 + g.r.Intn(2)
+	sl := newSchedLink(w, g, version, 0, 0)
+	if !sl.a.c.IsEncrypted() || !sl.b.c.IsEncrypted() {
+		return
+	}
+	A, B := sl.a, sl.b
+	for i := 0; i < 1+g.r.Intn(3); i++ {
+		sl.sendText(B, g.cleanText())
+		sl.drain()
+		if g.r.Intn(2) == 0 {
+			sl.sendText(A, g.cleanText())
+			sl.drain()
+		}
+	}
+	sl.sendText(B, g.cleanText())
+	sl.drain() // A has accepted messages under keys it has not revealed yet
+	w.tick(61)
+	st := []*party{A, B}[g.r.Intn(2)]
+	sl.enqueue(st, []otr3.ValidMessage{w.query(st)})
+	sl.drain()
+	g.dist["sched:re-ake-disclosure"]++
+	sl.sendText(A, g.cleanText())
+	sl.drain()
+	sl.sendText(B, g.cleanText())
+	sl.drain()
+}
+
 func init() {
 	profiles["sched"] = func(seed int64, n int, out *emitter, extra map[string]interface{}) map[string]int {
 		g := &gen{r: rand.New(rand.NewSource(seed)), out: out, dist: map[string]int{}}
@@ -627,6 +713,14 @@ func init() {
 			}
 			if i%2 == 0 {
 				g.forgeryFromDisclosedKeys(w)
+			}
+			if i%3 == 1 {
+				g.oversizedPayloads(w)
+			}
+			if i%3 == 2 {
+				w.parties = map[string]*party{}
+				w.dead = false
+				g.reAkeDisclosure(w)
 			}
 		}
 		extra["panics"] = panicCount
